@@ -106,6 +106,8 @@ type Machine struct {
 	noFloatLift bool
 	outstanding []*asyncJob
 	unknownLabels []string
+	normBuf    []value
+	lastRand   value
 
 	// stats (accumulated across paths)
 	instrs int64
@@ -133,6 +135,7 @@ func (m *Machine) resetPath(prefix []int) {
 	m.nondetMapFns = map[string]bool{}
 	m.panicOK = false
 	m.curFrame = nil
+	m.normBuf = nil
 }
 
 // addPC asserts t on the current path.
